@@ -4,7 +4,7 @@ import Driver.Common
 task-group / cancellation LTS `Haiway.Groups`.
 
 tokens (one case per line, in the order the event loop executed them):
-  rel.G  cancel.T  start.T  enter.T.B.(A|S)  enterfail.T.B  spawn.T.C.(s|c)  spawnfail.T.C  await.T.G  resume.T.G.(ok|c)
+  rel.G  cancel.T  start.T  enter.T.B.(A|S)  enterfail.T.B.O  cleanup.T.B  cleanupdone.T.B  spawn.T.C.(s|c)  spawnfail.T.C  await.T.G  resume.T.G.(ok|c)
   raise.T.(e|b)  caught.T.O  check.T.(0|1)  cancelself.T  bodyend.T.B.O  left.T.B.O.ALIVE  end.T.O
   seen.T.(B|-)            observation only: the group a `ctx.spawn` would join, as fingerprinted by the harness
   fin.T.(O|pending)       observation only: state of the asyncio Task when the run is over
@@ -21,6 +21,10 @@ open Haiway.Groups
 
 inductive Item where
   | lab (l : Label) (alive : Option (List Nat))
+  | cleanup (t b : Nat)          -- body of a scope with disposables ended: the group exit begins later, with a reason
+                                 -- the log does not show (placed by the search as `cleanupEnd`)
+  | cleanupDone (t b : Nat)      -- the last disposable of that scope has been closed: the group exit begins before the
+                                 -- harness acts again
   | seen (t : Nat) (g : Option Nat)
   | fin (t : Nat) (o : Option Outcome)
 
@@ -46,7 +50,9 @@ def parseItem (tok : String) : Option Item :=
   | ["cancel", t] => do pure (.lab (.cancel (← t.toNat?)) none)
   | ["start", t] => do pure (.lab (.start (← t.toNat?)) none)
   | ["enter", t, b, k] => do pure (.lab (.enter (← t.toNat?) (← b.toNat?) (k == "A")) none)
-  | ["enterfail", t, b] => do pure (.lab (.enterfail (← t.toNat?) (← b.toNat?)) none)
+  | ["enterfail", t, b, o] => do pure (.lab (.enterfail (← t.toNat?) (← b.toNat?) (← parseOut o)) none)
+  | ["cleanup", t, b] => do pure (.cleanup (← t.toNat?) (← b.toNat?))
+  | ["cleanupdone", t, b] => do pure (.cleanupDone (← t.toNat?) (← b.toNat?))
   | ["spawn", t, c, h] => do pure (.lab (.spawn (← t.toNat?) (← c.toNat?) (h == "s")) none)
   | ["spawnfail", t, c] => do pure (.lab (.spawnfail (← t.toNat?) (← c.toNat?)) none)
   | ["await", t, g] => do pure (.lab (.await (← t.toNat?) (← g.toNat?)) none)
@@ -90,6 +96,8 @@ def applyItem (s : Sys) (ids : List Nat) : Item → Except String Sys
       match alive with
       | some a => if aliveOf s' ids == a then .ok s' else .error s!"alive-differs:model={showNats (aliveOf s' ids)}"
       | none => .ok s'
+  | .cleanup _ _ => .ok s
+  | .cleanupDone _ _ => .ok s
   | .seen t g =>
     if ctxGroup (s.tasks t) == g then .ok s
     else .error s!"visible-group-differs:model={match ctxGroup (s.tasks t) with | some b => toString b | none => "-"}"
@@ -114,41 +122,67 @@ def tick : M Bool := do
   if n = 0 then return false
   set (n - 1); return true
 
+/-- scopes with disposables whose body has ended and whose group exit has not begun yet; `due` = their cleanup is over -/
+structure Pending where
+  t : Nat
+  b : Nat
+  due : Bool
+deriving BEq
+
+/-- a silent step the search may take now, with the cleanups still pending after it -/
+abbrev Cand := Label × List Pending
+
+def cleanupCands (s : Sys) (pc : List Pending) (dueOnly : Bool) : List Cand :=
+  (pc.filter fun p => p.due || !dueOnly).flatMap fun p =>
+    let rest := pc.filter (· != p)
+    ([(Outcome.ok, false), (.cancelled, true), (.cancelled, false), (.exc false, false), (.exc true, false)].map
+      fun (o, k) => (Label.cleanupEnd p.t p.b o k, rest)).filter fun c => (step s c.1).isSome
+
 mutual
 /-- try each silent label in turn, then continue with `items` -/
-def trySilent (ids : List Nat) (fuel : Nat) (s : Sys) (pos : Nat) (items : List Item) (f0 : Fail) :
-    List Label → M (Except Fail Sys)
+def trySilent (ids : List Nat) (fuel : Nat) (s : Sys) (pc : List Pending) (pos : Nat) (items : List Item) (f0 : Fail) :
+    List Cand → M (Except Fail Sys)
   | [] => pure (.error f0)
-  | σ :: more =>
+  | (σ, pc') :: more =>
     match fuel with
     | 0 => pure (.error { pos, why := "search-depth" })
     | fuel + 1 =>
       match step s σ with
-      | none => trySilent ids (fuel + 1) s pos items f0 more
+      | none => trySilent ids (fuel + 1) s pc pos items f0 more
       | some s' => do
-        match ← search ids fuel s' pos items with
+        match ← search ids fuel s' pc' pos items with
         | .ok r => pure (.ok r)
-        | .error f => trySilent ids (fuel + 1) s pos items (f0.best f) more
+        | .error f => trySilent ids (fuel + 1) s pc pos items (f0.best f) more
 termination_by ls => (fuel, 0, ls.length)
 
-def search (ids : List Nat) (fuel : Nat) (s : Sys) (pos : Nat) (items : List Item) : M (Except Fail Sys) := do
+def search (ids : List Nat) (fuel : Nat) (s : Sys) (pc : List Pending) (pos : Nat) (items : List Item) :
+    M (Except Fail Sys) := do
   if !(← tick) then return .error { pos, why := "search-budget" }
-  let sil := silentEnabled s ids
+  -- steps the loop owes before the harness can act again / the run can be over
+  let owed := ((silentEnabled s ids).map fun l => (l, pc)) ++ cleanupCands s pc true
+  let stuck := pc.any fun p => p.due
+  let cands := ((silentEnabled s ids).map fun l => (l, pc)) ++ cleanupCands s pc false
   match fuel with
   | 0 => return .error { pos, why := "search-depth" }
   | fuel + 1 =>
     match items with
-    | [] => if sil.isEmpty then return .ok s else trySilent ids (fuel + 1) s pos [] { pos, why := "silent-steps-stuck" } sil
+    | [] =>
+      if owed.isEmpty && !stuck then return .ok s
+      else trySilent ids (fuel + 1) s pc pos [] { pos, why := "silent-steps-stuck" } owed
     | it :: rest =>
-      if it.external && !sil.isEmpty then
-        trySilent ids (fuel + 1) s pos items { pos, why := "silent-steps-stuck" } sil
+      if it.external && (!owed.isEmpty || stuck) then
+        trySilent ids (fuel + 1) s pc pos items { pos, why := "silent-steps-stuck" } owed
       else
+        let pc1 := match it with
+          | .cleanup t b => pc ++ [{ t, b, due := false }]
+          | .cleanupDone t b => pc.map fun p => if p.t == t && p.b == b then { p with due := true } else p
+          | _ => pc
         match applyItem s ids it with
         | .ok s' =>
-          match ← search ids fuel s' (pos + 1) rest with
+          match ← search ids fuel s' pc1 (pos + 1) rest with
           | .ok r => return .ok r
-          | .error f => trySilent ids (fuel + 1) s pos items f sil
-        | .error why => trySilent ids (fuel + 1) s pos items { pos, why } sil
+          | .error f => trySilent ids (fuel + 1) s pc pos items f cands
+        | .error why => trySilent ids (fuel + 1) s pc pos items { pos, why } cands
 termination_by (fuel, 1, 0)
 end
 
@@ -187,7 +221,7 @@ def runCase (line : String) : String :=
   | some items =>
     let ids := sortNats (dedup (0 :: items.flatMap Item.ids))
     let fuel := 4 * (items.length + ids.length) + 16
-    let (res, _) := (search ids fuel init 0 items).run 200000
+    let (res, _) := (search ids fuel init [] 0 items).run 200000
     match res with
     | .ok s =>
       let finals := ids.map fun t => s!"{t}:{showStatus (s.tasks t).status}"
